@@ -101,16 +101,31 @@ def r02_13_init_arguments(ctx, rid='R02.13'):
     if len(binds) != 1:
         raise AnalysisError('anchor missing: `mapping = loader.construct_mapping(node, deep=True)` in Constructor.__call__')
     m = binds[0].targets[0].id
+
+    def is_split(e, names):
+        return isinstance(e, ast.Call) and call_name(e) == '__split_off_extra_attributes' and e.args and isinstance(e.args[0], ast.Name) \
+            and e.args[0].id in names
+    # names that hold the constructed attributes: the mapping itself, plain copies of it, and its split into parameters + extras
+    derived = {m}
+    changed = True
+    while changed:
+        changed = False
+        for n in f.walk():
+            if isinstance(n, ast.Assign) and len(n.targets) == 1 and isinstance(n.targets[0], ast.Name) and n.targets[0].id not in derived:
+                if (isinstance(n.value, ast.Name) and n.value.id in derived) or is_split(n.value, derived):
+                    derived.add(n.targets[0].id)
+                    changed = True
     rebinds = [n for n in f.walk() if isinstance(n, (ast.Assign, ast.AugAssign, ast.AnnAssign)) and n is not binds[0]
-               and any(isinstance(x, ast.Name) and x.id == m and isinstance(x.ctx, ast.Store) for x in ast.walk(n))]
+               and any(isinstance(x, ast.Name) and x.id in derived and isinstance(x.ctx, ast.Store) for x in ast.walk(n))
+               and not (isinstance(n, ast.Assign) and ((isinstance(n.value, ast.Name) and n.value.id in derived) or is_split(n.value, derived)))]
     r.check(not rebinds, 'the constructed mapping is bound once', f.key('mapping-rebound'), f.loc(rebinds[0]) if rebinds else f.loc(),
             'the mapping of constructed attributes is replaced before __init__ is called')
     writes = []
     for n in f.walk():
-        if isinstance(n, ast.Subscript) and isinstance(n.ctx, (ast.Store, ast.Del)) and isinstance(n.value, ast.Name) and n.value.id == m:
+        if isinstance(n, ast.Subscript) and isinstance(n.ctx, (ast.Store, ast.Del)) and isinstance(n.value, ast.Name) and n.value.id in derived:
             writes.append(n)
         elif isinstance(n, ast.Call) and isinstance(n.func, ast.Attribute) and isinstance(n.func.value, ast.Name) \
-                and n.func.value.id == m and n.func.attr in MUTATORS:
+                and n.func.value.id in derived and n.func.attr in MUTATORS:
             writes.append(n)
     for w in writes:
         r.fail(f.key('mapping-write:%s' % f.alpha.text(w)[:50]), f.loc(w), 'Constructor.__call__ modifies the constructed attributes before '
@@ -120,7 +135,7 @@ def r02_13_init_arguments(ctx, rid='R02.13'):
     # callees that receive the mapping must not write it either
     fe = W.fns.get(f.fi.key)
     for call, cands in (fe.call_sites if fe is not None else []):
-        pos = [i for i, a in enumerate(call.args) if isinstance(a, ast.Name) and a.id == m]
+        pos = [i for i, a in enumerate(call.args) if isinstance(a, ast.Name) and a.id in derived]
         if not pos or not f.live(call):
             continue
         for c in cands:
@@ -139,8 +154,8 @@ def r02_13_init_arguments(ctx, rid='R02.13'):
     for c in inits:
         kw = [k for k in c.keywords if k.arg is None]
         ok = len(kw) == 1 and not c.args and len(c.keywords) == 1
-        src = f.alpha.text(kw[0].value) if kw else ''
-        ok = ok and (src == f.alpha.text(ast.Name(m, ast.Load())) or ('__split_off_extra_attributes(' in src and 'construct_mapping(' in src))
+        src = kw[0].value if kw else None
+        ok = ok and ((isinstance(src, ast.Name) and src.id in derived) or is_split(src, derived))
         r.check(ok, '__init__(**<constructed mapping or its split>)', f.key('init-arguments:%d' % inits.index(c)), f.loc(c),
                 '__init__ is not called with exactly the constructed attributes (%s)' % norm(c)[:80])
     if not inits:
@@ -168,11 +183,32 @@ def r03_10_registered_is_given(ctx, rid='R03.10'):
             ok = False
             why = 'not inside a loop over %s' % cp
             for l in loops:
+                # the iterated collection is the argument itself, possibly wrapped into a list when a single class was passed:
+                # built from the parameter, isinstance() and list displays only, and never extended
+                allowed = {cp, 'isinstance', 'list', 'tuple'}
+
+                def from_param(e, depth=0):
+                    names = {x.id for x in ast.walk(e) if isinstance(x, ast.Name)}
+                    calls_ = [x for x in ast.walk(e) if isinstance(x, ast.Call) and call_name(x) not in ('isinstance',)]
+                    if calls_ or not names or cp not in names:
+                        return False
+                    for nm in names - allowed:
+                        if depth > 3:
+                            return False
+                        ds = reaching_defs(f, l.iter, nm)
+                        if not ds or not all(isinstance(d, (ast.Assign, ast.AnnAssign)) and d.value is not None and from_param(d.value, depth + 1) for d in ds):
+                            return False
+                        if any(isinstance(m_, ast.Call) and isinstance(m_.func, ast.Attribute) and m_.func.attr in MUTATORS
+                               and isinstance(m_.func.value, ast.Name) and m_.func.value.id == nm for m_ in f.walk()):
+                            return False
+                    return True
                 if isinstance(l.iter, ast.Name) and l.iter.id == cp:
                     defs = reaching_defs(f, l.iter, cp)
-                    odd = [d for d in defs if not (isinstance(d, ast.Assign) and norm(d.value) == '[%s]' % cp)]
+                    odd = [d for d in defs if not (isinstance(d, ast.Assign) and from_param(d.value))]
                     ok = not odd
                     why = 'the list iterated over is rebuilt before the loop (%s)' % norm(odd[0])[:60] if odd else ''
+                elif from_param(l.iter):
+                    ok, why = True, ''
             r.check(ok, '%s: %s happens for each class of the argument as given' % (f.fi.name, norm(s_)[:40]),
                     f.key('registration-source:%s' % f.alpha.text(s_)[:40]), f.loc(s_),
                     '%s registers classes the caller did not pass: %s' % (f.fi.name, why))
@@ -450,8 +486,8 @@ def r14_14_exact_key_match(ctx, rid='R14.14'):
                     f.loc(c), '%s matches keys against %s instead of the name it was given: an attribute that is absent is found '
                     'under another spelling (so "absent keys are ignored / reported" no longer holds and the transforms act on it)'
                     % (name, f.alpha.text(other)[:60]))
-    if n < 3:
-        raise AnalysisError('anchor missing: key comparisons in Node.has_attribute/get_attribute/__attr_index (found %d)' % n)
+    if n == 0:
+        raise AnalysisError('anchor missing: no comparison of a key text with a name in Node.has_attribute/get_attribute/__attr_index')
     r.done()
 
 
@@ -480,4 +516,29 @@ def r18_9_process_node_writes(ctx, rid='R18.9'):
                 'changed *value* where the key node is aliased)' % norm(w)[:70])
     if n_ok < 3:
         r.fail(f.key('writes-missing'), f.loc(), '__process_node has only %d of its writes (tag, children, attribute store)' % n_ok)
+    r.done()
+
+
+def r01_9_user_classes_registered_last(ctx, rid='R01.9'):
+    """PyYAML keeps one constructor per tag; a later add_constructor for the same tag replaces the earlier one. The constructors
+    of the user's classes are registered last, so that a node recognised and tagged as a user class is built by that class's
+    own, type-checking constructor."""
+    P = ctx.P
+    r = ctx.rule(rid, 'in load_function no constructor is registered after the user\'s classes (add_to_loader): nothing can displace the '
+                      'constructor of a recognised class', floor=1)
+    f = fn(P, 'yatiml.loader:load_function')
+    regs = [c for c in f.calls('add_to_loader') if f.live(c)]
+    if not regs:
+        r.fail(f.key('no-registration'), f.loc(), 'load_function does not register the user\'s classes')
+    later = []
+    for c in [c for c in f.walk() if isinstance(c, ast.Call) and call_name(c) in ('add_constructor', 'add_multi_constructor') and f.live(c)]:
+        cn = f.nid(c)
+        for a in regs:
+            an = f.nid(a)
+            if an is not None and cn is not None and cn != an and cn in f.cfg.reachable(an):
+                later.append(c)
+    r.check(not later, 'every other add_constructor in load_function comes before add_to_loader', f.key('registered-after-user-classes'),
+            f.loc(later[0]) if later else f.loc(), 'load_function registers %s after the user\'s classes: for a user class with the same tag '
+            'name the built-in constructor wins, and the object built is not an instance of the recognised class'
+            % (norm(later[0])[:60] if later else ''))
     r.done()
